@@ -12,6 +12,11 @@ def showMo (m : Month) : String := toString m.toNat
 def showOW := showOpt showWd
 def showOM := showOpt showMo
 
+def optNat? (s : String) : Option (Option Nat) := if s = "none" then some none else (nat? s).map some
+def align? (s : String) : Option M.Align :=
+  if s = "l" || s = "d" then some .left else if s = "r" then some .right
+  else if s = "c" then some .center else none
+
 def handle (op : String) (args : List String) : Option String :=
   match op, args with
   | "wd.succ", [a] => some ((wd? a).elim bad (fun w => showWd w.succ))
@@ -57,6 +62,9 @@ def handle (op : String) (args : List String) : Option String :=
           s!"f={joinSp (fs.map showWd)} b={joinSp (ks.map showWd)} left={it.days}"
         | .panic => "panic"
       | _, _, _, _ => bad)
+  | "wd.fmt", [a, w, p, al, fill] => some (match wd? a, optNat? w, optNat? p, align? al, nat? fill with
+      | some d, some w, some p, some al, some fill => hexEncode (d.display_fmt w p al fill)
+      | _, _, _, _, _ => bad)
   | "wd.from_prim", [ty, n] => some (match M.Conv.PrimTy.ofString ty, int? n with
       | some ty, some n => showOW (M.Conv.Weekday.fromPrim ty n) | _, _ => bad)
   | "mo.from_prim", [ty, n] => some (match M.Conv.PrimTy.ofString ty, int? n with
